@@ -12,7 +12,8 @@ import (
 )
 
 var c05Floor = []string{"keys.1", "keys.2", "keys.3", "dir.asc", "dir.desc", "dir.mixed", "key.null", "key.computed-null", "key.alias", "key.str", "key.num", "ties", "limit.huge",
-	"limit.bare", "limit.offset", "limit.comma", "limit.zero", "offset.beyond", "window.straddle", "window.inside", "window.noorder", "where"}
+	"limit.bare", "limit.offset", "limit.comma", "limit.zero", "offset.beyond", "window.straddle", "window.inside", "window.noorder", "where",
+	"shape.distinct", "shape.agg-all", "shape.group", "shape.union", "shape.bigint", "shape.shrunk-offset"}
 
 func init() {
 	fw.Register(&fw.Prop{
@@ -32,6 +33,7 @@ func init() {
 		MinNontrivial: 50,
 		Phases: []fw.Phase{
 			{Name: "order", N: func(t fw.Tier) int { return pick(t, 12000, 400000) }, Run: c05Order},
+			{Name: "shapes", N: func(t fw.Tier) int { return pick(t, 1500, 40000) }, Run: c05Shapes},
 		},
 		Witness: sqlWitness,
 	})
@@ -365,4 +367,194 @@ func c05Order(c *fw.Case) {
 	if wantLen < n {
 		c.Nontrivial(wsql + "|" + val.Canon(t.Array()))
 	}
+}
+
+
+var c05ShapeKinds = []string{"distinct", "agg-all", "group", "union", "bigint"}
+
+// c05Shapes: the window is cut from the FINAL row sequence, also when that
+// sequence is shorter than the filtered source (DISTINCT, an all-aggregate
+// select list, GROUP BY, UNION), and sort keys are compared by value also when
+// they are native integers beyond 2^53. Every (limit, offset) pair of a small
+// grid is executed against the un-windowed sequence of the same query.
+func c05Shapes(c *fw.Case) {
+	kind := c05ShapeKinds[c.Idx%len(c05ShapeKinds)]
+	t := gen.RandTable(c.R, gen.TableSpec{Name: "t1", MinRows: 3, MaxRows: pick(c.Tier, 10, 24), NumCols: 2, StrCols: 2, BoolCols: 1, StrStyle: gen.Plain, PoolSize: 2 + c.Intn(2)})
+	doc := func() map[string]any { return DocOf(t) }
+	src := len(t.Rows)
+	var base string
+	exact := true // the un-windowed sequence is deterministic
+	switch kind {
+	case "distinct":
+		col := gen.Pick(c.R, []string{"s1", "s2", "n1", "b1"})
+		base = "SELECT DISTINCT " + col + " FROM t1"
+		if c.Chance(0.6) {
+			base += " ORDER BY " + col + gen.Pick(c.R, []string{"", " ASC", " DESC"})
+		}
+	case "agg-all":
+		base = "SELECT " + gen.Pick(c.R, []string{"COUNT(*) AS c", "SUM(n1) AS c", "COUNT(*) AS c, MAX(n1) AS m"}) + " FROM t1"
+		if c.Chance(0.5) {
+			base += " ORDER BY c"
+		}
+	case "group":
+		col := gen.Pick(c.R, []string{"s1", "s2", "b1"})
+		base = "SELECT " + col + ", COUNT(*) AS c FROM t1 GROUP BY " + col + " ORDER BY " + col + gen.Pick(c.R, []string{"", " DESC"})
+	case "union":
+		col := gen.Pick(c.R, []string{"s1", "s2"})
+		base = "SELECT " + col + " AS v FROM t1 UNION SELECT " + col + " AS v FROM t1"
+	case "bigint":
+		pool := []int64{1 << 53, 1<<53 + 1, 1<<53 + 2, 1<<53 + 3, math.MaxInt64, math.MaxInt64 - 1, math.MaxInt64 - 2, -(1 << 53) - 1, -(1 << 53) - 2, math.MinInt64 + 1, math.MinInt64 + 2, 0, 7}
+		unsigned := c.Chance(0.3)
+		for _, r := range t.Rows {
+			v := gen.Pick(c.R, pool)
+			if unsigned {
+				if v < 0 {
+					v = -(v + 1)
+				}
+				r["big"] = uint64(v) + uint64(c.Intn(2))*(1<<63)
+			} else {
+				r["big"] = v
+			}
+		}
+		base = "SELECT rid, big FROM t1 ORDER BY big" + gen.Pick(c.R, []string{"", " ASC", " DESC"})
+		exact = false
+	}
+	c.Feature("shape." + kind)
+	u := Run(doc(), base)
+	evals := 1
+	if !u.OK() {
+		c.Violate("error", fmt.Sprintf("un-windowed query failed: %v", u.Describe()), map[string]any{"sql": base, "doc": doc()})
+		return
+	}
+	O := u.Rows
+	n := len(O)
+	if kind == "bigint" {
+		desc := strings.HasSuffix(base, "DESC")
+		if !val.SameMultiset(Rids(O), Rids(val.Copy(t.Array()).([]any))) {
+			c.Violate("not-permutation", "ordered output is not a permutation of the table", map[string]any{"sql": base, "doc": doc(), "observed": val.Show(O)})
+			return
+		}
+		for i := 1; i < n; i++ {
+			a, b := val.Deref(O[i-1].(map[string]any)["big"]), val.Deref(O[i].(map[string]any)["big"])
+			cmp := c05CmpInt(a, b)
+			if desc {
+				cmp = -cmp
+			}
+			if cmp > 0 {
+				c.Violate("out-of-order", fmt.Sprintf("native integer keys out of order at positions %d,%d: %v then %v", i-1, i, a, b), map[string]any{"sql": base, "doc": doc(), "observed": val.Show(O)})
+				return
+			}
+		}
+		c.Nontrivial(base + "|" + val.Canon(t.Array()))
+	}
+	offs := []int{0, 1, 2, n - 1, n, n + 1, src - 1, src, src + 1, (n + src) / 2}
+	lims := []int{0, 1, 2, n, src + 3}
+	for _, off := range offs {
+		if off < 0 {
+			continue
+		}
+		for _, lim := range lims {
+			if lim < 0 {
+				continue
+			}
+			var wsql string
+			if c.Chance(0.5) {
+				wsql = fmt.Sprintf("%s LIMIT %d OFFSET %d", base, lim, off)
+			} else {
+				wsql = fmt.Sprintf("%s LIMIT %d, %d", base, off, lim)
+			}
+			w := Run(doc(), wsql)
+			evals++
+			det := map[string]any{"sql": wsql, "doc": doc(), "full_sequence": val.Show(O), "limit": lim, "offset": off, "source_rows": src}
+			if !w.OK() {
+				c.Violate("error", fmt.Sprintf("LIMIT/OFFSET query failed (must never fail): %v", w.Describe()), det)
+				c.Evals(evals)
+				return
+			}
+			wantLen := n - off
+			if wantLen > lim {
+				wantLen = lim
+			}
+			if wantLen < 0 {
+				wantLen = 0
+			}
+			det["observed"] = val.Show(w.Rows)
+			if len(w.Rows) != wantLen {
+				c.Violate("window-length", fmt.Sprintf("window has %d rows, expected %d (final len=%d source len=%d limit=%d offset=%d)", len(w.Rows), wantLen, n, src, lim, off), det)
+				c.Evals(evals)
+				return
+			}
+			if off > n && off < src {
+				c.Feature("shape.shrunk-offset")
+			}
+			if wantLen == 0 {
+				continue
+			}
+			expect := O[off : off+wantLen]
+			if exact {
+				if !val.SameSeq(w.Rows, expect) {
+					c.Violate("window-content", "window differs from positions m..m+n-1 of the un-windowed sequence", det)
+					c.Evals(evals)
+					return
+				}
+			} else {
+				for i := range expect {
+					if val.Canon(val.Deref(w.Rows[i].(map[string]any)["big"])) != val.Canon(val.Deref(expect[i].(map[string]any)["big"])) {
+						c.Violate("window-content", fmt.Sprintf("window element %d has a different key than position %d of the full sequence", i, off+i), det)
+						c.Evals(evals)
+						return
+					}
+				}
+			}
+			if wantLen < n {
+				c.Nontrivial(wsql + "|" + val.Canon(t.Array()))
+			}
+		}
+	}
+	c.Evals(evals)
+	c.Sample(map[string]any{"sql": base, "final_rows": n, "source_rows": src})
+}
+
+// c05CmpInt orders two native integers (int64 or uint64) by value.
+func c05CmpInt(a, b any) int {
+	neg := func(v any) (bool, uint64) {
+		switch x := v.(type) {
+		case int64:
+			if x < 0 {
+				return true, uint64(-(x + 1))
+			}
+			return false, uint64(x)
+		case uint64:
+			return false, x
+		case int:
+			if x < 0 {
+				return true, uint64(-(int64(x) + 1))
+			}
+			return false, uint64(x)
+		}
+		return false, 0
+	}
+	an, am := neg(a)
+	bn, bm := neg(b)
+	switch {
+	case an && !bn:
+		return -1
+	case !an && bn:
+		return 1
+	case an: // both negative: larger magnitude-1 is smaller
+		switch {
+		case am > bm:
+			return -1
+		case am < bm:
+			return 1
+		}
+		return 0
+	}
+	switch {
+	case am < bm:
+		return -1
+	case am > bm:
+		return 1
+	}
+	return 0
 }
